@@ -37,8 +37,13 @@ def worker(case):
         if busr is not None:
             cell, net, perm, keep = busr
             bus[(cell, net)] = (tuple(perm), tuple(keep))
+        opts = dict(opts)
+        if opts.pop("dup_instances", False):
+            ad, ad_read = fdesigns.dup_instances(ad)
+        else:
+            ad_read = ad
         text = edif_writer.render(ad, bus=bus, **opts)
-        exp = edif_writer.expected(ad, bus=bus)
+        exp = edif_writer.expected(ad_read, bus=bus)
         tag = "%s:%s" % (base, "bus" if busr is not None else "opts")
         feature = []
         if opts["refcase"] != "decl":
